@@ -250,7 +250,7 @@ func (in *Interp) formatAsConcat(f string, args []Val) (Val, bool) {
 		switch f[i+1] {
 		case '%':
 			lit += "%"
-		case 's', 'v':
+		case 's', 'v', 'd':
 			if ai >= len(args) {
 				return nil, false
 			}
@@ -259,12 +259,26 @@ func (in *Interp) formatAsConcat(f string, args []Val) (Val, bool) {
 			if iv, ok := a.(Iface); ok {
 				a = iv.V
 			}
-			switch a.(type) {
+			switch x := a.(type) {
 			case SymStr:
-			case Konst:
-				if _, isS := constStringVal(a.(Konst)); !isS {
+				if f[i+1] == 'd' {
 					return nil, false
 				}
+			case Konst:
+				if _, isS := constStringVal(x); !isS {
+					// %v of an integer is its decimal form
+					if x.V == nil || x.V.Kind() != constant.Int || f[i+1] == 's' {
+						return nil, false
+					}
+					a = in.itoaText(x)
+				} else if f[i+1] == 'd' {
+					return nil, false
+				}
+			case SymInt:
+				if f[i+1] == 's' {
+					return nil, false
+				}
+				a = in.itoaText(x)
 			default:
 				return nil, false
 			}
@@ -353,6 +367,32 @@ func builtinModels(in *Interp, site ssa.CallInstruction, name string, args []Val
 			return kInt(0), true
 		}
 		return kInt(-1), true
+	case "strconv.Itoa":
+		return in.itoaText(args[0]), true
+	case "strconv.FormatInt", "strconv.FormatUint":
+		if b, ok := in.concretise(args[1]); ok && b == 10 {
+			return in.itoaText(args[0]), true
+		}
+		return nil, false
+	case "strconv.AppendInt", "strconv.AppendUint":
+		if b, ok := in.concretise(args[2]); ok && b == 10 {
+			switch buf := args[0].(type) {
+			case SymStr:
+				return in.concatText(buf, in.itoaText(args[1])), true
+			case Konst:
+				if buf.V == nil {
+					return in.itoaText(args[1]), true
+				}
+				if _, isS := constStringVal(buf); isS {
+					return in.concatText(buf, in.itoaText(args[1])), true
+				}
+			case Slice:
+				if len(buf.E) == 0 {
+					return in.itoaText(args[1]), true
+				}
+			}
+		}
+		return nil, false
 	case "strings.ToUpper", "strings.ToLower":
 		if k, ok := args[0].(Konst); ok {
 			if sv, ok := constStringVal(k); ok {
@@ -917,4 +957,14 @@ func diffStrings(a, b string) (string, string) {
 		return "…" + s[start:end] + "…"
 	}
 	return cut(a), cut(b)
+}
+
+// itoaText: the decimal text of an integer value: a constant for a constant,
+// else the symbol itoa(<key>) — the same for strconv.Itoa, FormatInt(…, 10),
+// AppendInt(…, 10) and fmt's %v/%d of an integer.
+func (in *Interp) itoaText(v Val) Val {
+	if k, ok := v.(Konst); ok && k.V != nil && k.V.Kind() == constant.Int {
+		return kStr(k.V.ExactString())
+	}
+	return SymStr{Key: "itoa(" + keyOf(v) + ")"}
 }
